@@ -162,3 +162,15 @@ contract(
     ensures=["result['name'] == 'MyString'", "result['attributes'] == ['LEN', 'DATA']", "result['string'] == cap",
              "result['type_class'].size == cap", "issubclass(result['type_class'], pycomm3.cip.data_types.StringDataType)"],
     props=["C05"], max_paths=20000)
+
+# the predefined-type range (template ids outside 0x100..0xEFF) decides whether a member called Control / CTL is a hidden host
+contract(
+    id="upload.template.predefined_range", func=LD + "._parse_template_data", call="d._parse_template_data(data, template, stype)",
+    params={"stype": P.int(0x8000, 0x8FFF)},
+    setup=[f"d = {LD}('10.0.0.1')", "d._cache = {'tag_name:id': {}, 'id:struct': {}, 'handle:id': {}, 'id:udt': {}}",
+           "data = spec.logix.template_member_info(0, 0xC4, 0) + spec.logix.template_member_info(0, 0xC4, 4) + b'Axis;n\\x00Control\\x00Speed\\x00'",
+           "template = {'object_definition_size': 30, 'structure_size': 8, 'member_count': 2, 'structure_handle': 0x1234}",
+           "tid = stype & 0x0FFF"],
+    ensures=["('Control' in result['attributes']) == (0x100 <= tid and tid <= 0xEFF)", "'Speed' in result['attributes']",
+             "result['name'] == 'Axis'"],
+    props=["C05"], max_paths=20000)
